@@ -2,6 +2,7 @@ package smtp
 
 import (
 	"io"
+	"time"
 )
 
 // ---------------------------------------------------------------------------
@@ -69,7 +70,7 @@ func verif_C08_run() {
 		c := verifChoice(len(verifC08Cmds))
 		in = append(in, verifC08Cmds[c]...)
 	}
-	closing := verifChoice(5)
+	closing := verifChoice(6)
 	switch closing {
 	case 0: // QUIT
 		in = append(in, "QUIT\r\n"...)
@@ -81,6 +82,8 @@ func verif_C08_run() {
 		panicInMail = true
 		in = append(in, "EHLO p.example\r\nMAIL FROM:<panic@v>\r\n"...)
 	case 4: // nothing: peer just disconnects after the suffix
+	case 5: // idle timeout: the read deadline expires here (at a command boundary or two octets into the next line); the suffix arrives late
+		s.ReadTimeout = time.Second
 	}
 	be.mailErr = func(from string) error {
 		if panicInMail && from == "panic@v" {
@@ -94,8 +97,21 @@ func verif_C08_run() {
 		in = append(in, verifC08Cmds[c]...)
 	}
 	final := io.EOF
-	vc, c, _ := verifServe(s, in, final)
-	_ = c
+	vc := &vconn{in: in, final: final}
+	if closing == 5 {
+		off := closeAt
+		if nondetBool() {
+			off += 2
+		}
+		vc.faults = map[int]error{off: verifTimeoutErr{}}
+	}
+	c := newConn(vc, s)
+	s.handleConn(c)
+	verifSettle()
+	if closing == 5 && !vc.fired[closeAt] && !vc.fired[closeAt+2] {
+		// the prefix already closed the connection (QUIT in the prefix)
+		verifReach("C08.timeout-not-reached")
+	}
 
 	verifCheckSessions(be, "run")
 	// Where did the server decide to close? Find the closing reply in the output.
@@ -254,4 +270,101 @@ func verif_C08_close_overlap() {
 	// the harness so that the tag covers nothing else.
 	verifKnown("KF-C08-callback-after-concurrent-close", true)
 	verifAssert(!late, "C08.overlap-no-callback-after-logout")
+}
+
+// verif_C08_conn_isolation: nothing of a connection outlives it. On one Server
+// a conversation B (a complete DATA transaction with pipelined commands) is run
+// first, then a connection A that ends in one of ten ways - QUIT, the error
+// threshold, an over-long line or a backend panic with further commands already
+// buffered; cut or timed out in the middle of a DATA body or a BDAT chunk; an
+// over-long body line; or normally - and then B again. The second B gets
+// exactly the replies and causes exactly the callbacks of the first: no
+// buffered input, reader, error or transaction state of A (or of the first B)
+// is ever seen by a later connection, whatever the library recycles.
+func verif_C08_conn_isolation() { verifConnIsolation("C08") }
+
+func verifConnIsolation(prop string) {
+	verifPreemptBound(0)
+	verifSchedForkBound(0)
+	convB := "EHLO b\r\nMAIL FROM:<s@v>\r\nRCPT TO:<r@v>\r\nDATA\r\nhi\r\n.\r\nNOOP\r\nQUIT\r\n"
+	long := "NOOP 567890123456789012345678901234567890123456789012345678901234567890"
+	left := "EHLO left\r\nMAIL FROM:<left@v>\r\n"
+	open := "EHLO a\r\nMAIL FROM:<a@v>\r\nRCPT TO:<ra@v>\r\n"
+	variants := []string{
+		"EHLO a\r\nQUIT\r\n" + left,
+		"EHLO a\r\nFROB\r\nFROB\r\nFROB\r\nFROB\r\n" + left,
+		"EHLO a\r\n" + long + "\r\n" + left,
+		"EHLO a\r\nMAIL FROM:<panic@v>\r\n" + left,
+		open + "DATA\r\nhalf a mess",
+		open + "DATA\r\nhalf a message\r\nand more\r\n.\r\n" + left, // with a read timeout inside the body
+		open + "DATA\r\n" + long + "\r\n.\r\n" + left,
+		open + "BDAT 9\r\nhalf",
+		open + "BDAT 9 LAST\r\nhalf a ch" + left, // with a read timeout inside the chunk
+		convB,
+	}
+	a := verifChoice(len(variants))
+	be := &vbackend{}
+	be.mailErr = func(from string) error {
+		if from == "panic@v" {
+			panic("verif: injected backend panic")
+		}
+		return nil
+	}
+	var bodies []string
+	be.dataFn = func(_ *vsession, r io.Reader) error {
+		b, e := verifReadAll(r, 4)
+		bodies = append(bodies, string(b))
+		if e != io.EOF {
+			return e
+		}
+		return nil
+	}
+	s, _ := verifServer(be)
+	s.MaxLineLength = 60
+	s.ReadTimeout = time.Second
+	type obs struct {
+		out   string
+		calls []string
+		body  []string
+	}
+	run := func(in string, fault int) obs {
+		var o obs
+		tmark, bmark := len(be.trace), len(bodies)
+		vc := &vconn{in: []byte(in), final: io.EOF}
+		if fault >= 0 {
+			vc.faults = map[int]error{fault: verifTimeoutErr{}}
+		}
+		c := newConn(vc, s)
+		s.handleConn(c)
+		verifSettle()
+		o.out = string(vc.out)
+		for _, e := range be.trace[tmark:] {
+			o.calls = append(o.calls, e.kind+" "+e.arg)
+		}
+		o.body = append(o.body, bodies[bmark:]...)
+		return o
+	}
+	b1 := run(convB, -1)
+	fault := -1
+	switch a {
+	case 5:
+		fault = len(open) + len("DATA\r\nhalf a m")
+	case 8:
+		fault = len(open) + len("BDAT 9 LAST\r\nhal")
+	}
+	run(variants[a], fault)
+	b2 := run(convB, -1)
+	verifObserve(prop+".conniso", a, len(b1.out), len(b2.out), len(b1.calls), len(b2.calls))
+	reps, wf := verifParseReplies([]byte(b1.out))
+	verifAssert(wf && len(reps) == 8 && reps[5].code == 250 && reps[7].code == 221, prop+".conn-isolation-reference")
+	verifAssert(b1.out == b2.out, prop+".conn-isolation-same-replies")
+	verifAssert(len(b1.calls) == len(b2.calls), prop+".conn-isolation-same-callbacks")
+	if len(b1.calls) == len(b2.calls) {
+		for i := range b1.calls {
+			verifAssert(b1.calls[i] == b2.calls[i], prop+".conn-isolation-same-callbacks")
+		}
+	}
+	verifAssert(len(b1.body) == 1 && len(b2.body) == 1 && b1.body[0] == b2.body[0], prop+".conn-isolation-same-message")
+	verifAssert(verifGoroutinesAlive() == 0, prop+".conn-isolation-no-goroutine-left")
+	verifReach(prop+".conn-isolation-end")
 }
